@@ -69,6 +69,9 @@ type kstat struct {
 }
 
 type mon struct {
+	label  string           // "A" / "B"
+	early  func(obs string) // called once per op at the first off-goroutine or overlapping entry
+	told   bool
 	mu     sync.Mutex
 	canon  map[uint64]int
 	inside map[uint64]int
@@ -123,12 +126,26 @@ func (m *mon) enter(kind string) func() {
 	if in > st.maxIn {
 		st.maxIn = in
 	}
+	var tell string
+	if (c != 1 || in > 1) && !m.told && m.early != nil {
+		// written (and flushed) at once: a second goroutine inside a service often crashes the
+		// process soon after (unsynchronised maps), and the record must survive that
+		m.told = true
+		tell = fmt.Sprintf("%s=1/%d/%d", kind, c, in)
+	}
 	m.tick++
 	mode := m.dwell
 	if mode == "mix" {
 		mode = []string{"sleep", "yield", "spin", "none"}[m.tick%4]
 	}
 	m.mu.Unlock()
+	if tell != "" {
+		if m.label == "A" {
+			m.early("ok A:" + tell + " B:")
+		} else {
+			m.early("ok A: B:" + tell)
+		}
+	}
 	switch mode {
 	case "sleep":
 		time.Sleep(time.Microsecond) // virtual: returns when every other goroutine of the bubble is blocked
@@ -182,6 +199,7 @@ func (m *mon) report() string {
 		}
 	}
 	m.stats = map[string]*kstat{}
+	m.told = false
 	return strings.Join(parts, ",")
 }
 
@@ -269,6 +287,7 @@ type plain struct{ X int } // not a proto.Message: remote.Serialize fails
 // ---------------------------------------------------------------- world
 
 type world struct {
+	early func(obs string)
 	sys   *actor.ActorSystem
 	nCase int
 	a, b  *hsvc
@@ -283,6 +302,7 @@ func (w *world) spawn(tag string) (*hsvc, *actor.PID) {
 	var s *hsvc
 	props, _ := ns.NewServiceWithDispatcher(func() actor.Actor {
 		s = &hsvc{NodeService: ns.NewService(), m: newMon(), tag: tag}
+		s.m.label, s.m.early = strings.ToUpper(tag), w.early
 		s.Service.InitReqReceiver(s)
 		return s
 	}, name, "c04.remote")
@@ -444,6 +464,9 @@ func (w *world) burst(b burst) string {
 		go func() {
 			fs := &fakeSession{}
 			w.a.simpl.OnSessionCreate(fs)
+			// a client speaks only after its handshake was answered: by then the service has
+			// registered the session (a message for an unknown session is dropped by ClientSessions)
+			time.Sleep(time.Millisecond)
 			for j := 0; j < b.msg; j++ {
 				w.a.simpl.ProcessMessage(fs, &message.Message{Type: message.Request, ID: uint(j + 1), Route: "x.y.z", Data: []byte{byte(i)}})
 			}
@@ -543,9 +566,23 @@ func TestRun(t *testing.T) {
 		h := hx.Open()
 		register()
 		w := &world{sys: actor.NewActorSystem()}
+		var emitMu sync.Mutex
+		curOp := ""
+		w.early = func(obs string) {
+			emitMu.Lock()
+			h.Emit(curOp, obs)
+			h.Flush()
+			emitMu.Unlock()
+		}
 		run := func(op string) {
+			emitMu.Lock()
+			curOp = op
+			emitMu.Unlock()
 			obs := w.exec(op)
+			emitMu.Lock()
 			h.Emit(op, obs)
+			h.Flush()
+			emitMu.Unlock()
 			for _, tok := range strings.Fields(obs) {
 				if i := strings.IndexByte(tok, ':'); i == 1 {
 					for _, e := range strings.Split(tok[2:], ",") {
